@@ -278,7 +278,8 @@ func VerifC15Txn(h *verifh.H) {
 	d2 := h.Choice("d2", 4) // 0: no second dataset, 1..3: a valid fragment
 	doc := `{"@context":` + ctxFrags[c] + `,"ds1":` + vTxnDsFrags[d1]
 	if d2 > 0 {
-		doc += `,"ds2":` + vTxnDsFrags[d2-1]
+		// the second dataset's entities have ids of their own (f1, f2)
+		doc += `,"ds2":` + strings.ReplaceAll(vTxnDsFrags[d2-1], "ex:e", "ex:f")
 	}
 	doc += `}`
 	valid := c == 0 && d1 < 3
@@ -296,8 +297,21 @@ func VerifC15Txn(h *verifh.H) {
 	if valid {
 		want1 := []int{1, 0, 2}[d1]
 		h.Assert(err == nil && txn != nil && count("ds1") == want1, "a valid transaction payload parses to the entities it denotes :: doc="+doc)
+		idsOf := func(name string) string {
+			out := ""
+			if txn != nil {
+				for _, e := range txn.DatasetEntities[name] {
+					// local part of the id (the prefix is the hub's)
+					out += e.ID[strings.Index(e.ID, ":")+1:] + ","
+				}
+			}
+			return out
+		}
+		wantIDs := []string{"e1,", "", "e1,e2,"}
+		h.Assert(idsOf("ds1") == wantIDs[d1], "each dataset of a transaction gets exactly its own entities, in order :: ds1="+idsOf("ds1")+" doc="+doc)
 		if d2 > 0 && err == nil {
 			h.Assert(count("ds2") == []int{1, 0, 2}[d2-1], "the second dataset's entities are parsed :: doc="+doc)
+			h.Assert(idsOf("ds2") == strings.ReplaceAll(wantIDs[d2-1], "e", "f"), "each dataset of a transaction gets exactly its own entities, in order :: ds2="+idsOf("ds2")+" doc="+doc)
 		}
 	} else if c == 1 || c == 5 {
 		// a context without (or with null) namespaces is acceptable when no identifier needs a
